@@ -144,7 +144,7 @@ def solitary(case, i, nd, cache):
         return cache[key]
     with World("c20s_") as w:
         os.makedirs(w.p("d%d" % i))
-        n = w.node(tmp_names=_names(case, i))
+        n = w.node(tmp_names=_names(case, i), prelude=False)  # the solitary reference run is a fresh process
         r = w.call(n, _req(case, i, nd))
         res = {"ok": r["ok"], "exc": r.get("exc"), "msg": r.get("msg"), "points": r["points"], "upd_points": 0,
                "dump": logical(raw_dump(w.p(_db(i)))) if r["ok"] else None, "dump2": None}
